@@ -77,6 +77,9 @@ mod latest_height_stream;
 mod reconstruct;
 mod reporting;
 mod verify;
+#[cfg(all(test, feature = "verif"))]
+#[path = "/verif/harness/conductor/celestia.rs"]
+mod verif;
 
 pub(crate) use builder::Builder;
 use latest_height_stream::LatestHeightStream;
